@@ -711,9 +711,23 @@ pub fn run(tier: Tier) -> RunOutcome {
     let path = work_file("out.txt");
     with_sim(|s| s.clocks[0] = Clock::new(profile.clone()));
     let rf = exec_history_to(2, &prob, &settings, &ops, true, &Target::File(path.clone()));
+    // what the file holds when the last solve() has returned, the solver still alive: the
+    // bytes "for the same solve" (an implementation may buffer, but not beyond the solve)
+    let at_return = std::fs::read(&path).unwrap_or_default();
+    let alive = rf.solver.is_some();
     drop(rf.solver);
     let fbytes = std::fs::read(&path).unwrap_or_default();
     std::fs::remove_file(&path).ok();
+    if alive && at_return != fbytes && fbytes == buf.as_bytes() {
+        out.violations.push(Violation::new(
+            "C20.file_incomplete_when_solve_returns",
+            format!(
+                "file holds {} bytes when solve() has returned and {} (= buffer) only after the solver was dropped",
+                at_return.len(),
+                fbytes.len()
+            ),
+        ));
+    }
     if fbytes != buf.as_bytes() {
         out.violations.push(Violation::new(
             if verbose { "C20.file_differs_from_buffer" } else { "C20.quiet_file_written" },
